@@ -39,7 +39,19 @@ M = [
  ("C17_reset_only_sf", "C17", "flodym/lifetime_models.py", '        self._sf = None\n        self._pdf = None\n\n    def _tile', '        self._sf = None\n\n    def _tile', "set_prms invalidates only the survival table"),
  ("C17_weibull_no_reset", "C17", "flodym/lifetime_models.py", 'def set_prms(self, weibull_shape: FlodymArray, weibull_scale: FlodymArray):\n        self._reset_tables()', 'def set_prms(self, weibull_shape: FlodymArray, weibull_scale: FlodymArray):', "Weibull set_prms does not invalidate"),
  ("C17_reset_after_first_param", "C17", "flodym/lifetime_models.py", 'def set_prms(self, mean: FlodymArray, std: FlodymArray):\n        self._reset_tables()\n        self.mean = self.cast_any_to_np_array(mean)\n        self.std = self.cast_any_to_np_array(std)', 'def set_prms(self, mean: FlodymArray, std: FlodymArray):\n        self.mean = self.cast_any_to_np_array(mean)\n        self._reset_tables()\n        self.std = self.cast_any_to_np_array(std)', "invalidate after storing the first of two parameters (harmless unless interrupted)"),
- ("C17_cohort_accumulates", "C17", "flodym/stocks.py", 'self._outflow_by_cohort = np.einsum(\n            "c...,tc...->tc...", self.inflow.values, self.lifetime_model.pdf\n        )', 'self._outflow_by_cohort = self._outflow_by_cohort * 0 + np.einsum(\n            "c...,tc...->tc...", self.inflow.values, self.lifetime_model.pdf\n        ) + (self._outflow_by_cohort > 1e300)', "harmless rewrite (negative control: must NOT be flagged)"),
+ ("C17_cohort_accumulates", "C17", "flodym/stocks.py", 'self._outflow_by_cohort = np.einsum(\n            "c...,tc...->tc...", self.inflow.values, self.lifetime_model.pdf\n        )', 'self._outflow_by_cohort = self._outflow_by_cohort * 0 + np.einsum(\n            "c...,tc...->tc...", self.inflow.values, self.lifetime_model.pdf\n        ) + (self._outflow_by_cohort > 1e300)', "cohort table accumulates on the previous one: history dependent when the previous result held NaN / inf (the check flags it, rightly)"),
+ # ---- negative controls: property-preserving refactors, must NOT be flagged
+ ("NC_C17_temp_copy", "C17", "flodym/stocks.py", 'self.outflow.values[...] = self._outflow_by_cohort.sum(axis=1)', 'tmp = self._outflow_by_cohort.sum(axis=1)\n        self.outflow.values[...] = tmp.copy()', "negative control: harmless temp copy"),
+ ("NC_C14_copy_via_ctor", "C14", "flodym/dimensions.py", 'return self.model_copy(update={"dim_list": copy(self.dim_list)})', 'return DimensionSet(dim_list=list(self.dim_list))', "negative control: copy() through the constructor"),
+ ("NC_C15_slice_dotcopy", "C15", "flodym/flodym_arrays.py", 'dims=self.dims_out, values=np.array(self.values_pointer), name=self.flodym_array.name', 'dims=self.dims_out, values=self.values_pointer.copy(), name=self.flodym_array.name', "negative control: .copy() instead of np.array"),
+ ("NC_C13_other_exception", "C13", "flodym/flodym_arrays.py", 'raise ValueError("Values must be a numpy array, except for 0-dimensional arrays.")', 'raise TypeError("values: ndarray needed unless the array has no dimensions")', "negative control: other exception class and message"),
+ ("NC_C05_setitem_local", "C05", "flodym/flodym_arrays.py", 'self.values[slice_obj.ids] = item.sum_values_to(slice_obj.dim_letters)', 'summed = item.sum_values_to(slice_obj.dim_letters)\n            self.values[slice_obj.ids] = np.array(summed)', "negative control: copy of the summed source before assignment"),
+ ("NC_C12_other_exception", "C12", "flodym/_df_to_flodym_array.py", 'raise ValueError("Empty cells/NaN values in value column!")', 'raise RuntimeError("value column has empty cells")', "negative control: other exception class"),
+ ("NC_C11_flatten_ravel_c", "C11", "flodym/flodym_arrays.py", 'df = pd.DataFrame({"value": self.values.flatten()})\n            df = df.set_index(multiindex)\n        if dim_to_columns', 'df = pd.DataFrame({"value": np.ascontiguousarray(self.values).ravel()})\n            df = df.set_index(multiindex)\n        if dim_to_columns', "negative control: C-order ravel of a contiguous copy"),
+ ("NC_C02_message_and_eps", "C02", "flodym/mfa_system.py", 'message = "Mass balance check failed for the following processes: " + info', 'message = "Unbalanced processes -> " + info', "negative control: other message text"),
+ ("NC_C18_processes_loop", "C18", "flodym/processes.py", 'return {name: Process(name=name, id=id) for id, name in enumerate(definitions)}', 'out = {}\n    for name in definitions:\n        out[name] = Process(name=name, id=len(out))\n    return out', "negative control: loop instead of comprehension"),
+ ("NC_C19_pickle_with_block", "C19", "flodym/export/data_writer.py", 'pickle.dump(dict_out, open(export_path, "wb"))', 'with open(export_path, "wb") as fh:\n        pickle.dump(dict_out, fh, protocol=pickle.HIGHEST_PROTOCOL)', "negative control: with-block and explicit protocol"),
+ ("NC_C19_makedirs_exist_ok", "C19", "flodym/export/data_writer.py", '    if not os.path.exists(export_directory):\n        os.makedirs(export_directory)\n    for flow_name', '    os.makedirs(export_directory, exist_ok=True)\n    for flow_name', "negative control: makedirs(exist_ok=True)"),
  ("C18_swap_source_target", "C18", "flodym/flow_helper.py", 'flow = Flow(from_process=from_process, to_process=to_process, name=name, dims=dim_subset)', 'flow = Flow(from_process=to_process, to_process=from_process, name=name, dims=dim_subset)', "source and target swapped"),
  ("C18_ids_from_1", "C18", "flodym/processes.py", 'for id, name in enumerate(definitions)', 'for id, name in enumerate(definitions, start=1)', "process ids start at 1"),
  ("C18_ignore_override", "C18", "flodym/flow_helper.py", 'if flow_definition.name_override is not None:', 'if False:', "name_override ignored"),
